@@ -8,4 +8,8 @@ python3-vt -c "import z3, crosshair; print('z3', z3.get_version_string())"
 /venv/bin/python -c "import torch, torch_semiring_einsum; print('torch', torch.__version__)"
 test -f /venv/lib/python3.12/site-packages/torch_semiring_einsum/extend.py
 cd "$HERE" && PYTHONDONTWRITEBYTECODE=1 python3-vt -B selftest/smoke.py
+# translation validation of the torch model: the repository's own unit tests (incl. gradcheck) run on the model in concrete mode
+mkdir -p "$HERE/scratch"
+cd "$HERE" && { PYTHONDONTWRITEBYTECODE=1 python3-vt -B selftest/repo_tests_on_model.py > "$HERE/scratch/model_tests.log" 2>&1 || { tail -30 "$HERE/scratch/model_tests.log"; echo "model validation failed"; exit 1; }; }
+tail -1 "$HERE/scratch/model_tests.log"
 echo setup ok
